@@ -82,6 +82,7 @@ type be struct {
 type frontend struct {
 	up      bool
 	resized int
+	failResize bool // the next frontend Resize fails
 }
 
 func (f *frontend) Startup(string, string, string, int64, int64, types.IOs) error {
@@ -96,7 +97,14 @@ func (f *frontend) State() types.State {
 	return types.StateDown
 }
 func (f *frontend) Stats() types.Stats  { return types.Stats{} }
-func (f *frontend) Resize(uint64) error { f.resized++; return nil }
+func (f *frontend) Resize(uint64) error {
+	if f.failResize {
+		f.failResize = false
+		return fmt.Errorf("Volume is not up (injected frontend failure)")
+	}
+	f.resized++
+	return nil
+}
 
 type signal struct {
 	target, action string
